@@ -9,6 +9,7 @@ import (
 	"encoding/binary"
 	"fmt"
 	"io"
+	"reflect"
 	"sort"
 	"strconv"
 	"strings"
@@ -692,6 +693,8 @@ type scenResult struct {
 	err      error    // harness-level failure (timeouts waiting for the service)
 	timedOut bool     // err is a deadline that passed (clock-based: to be confirmed alone with 10× the time)
 	opsSoFar []string // the ops played when the run ended
+	beginPos []int        // len(ops) at every entry of a flusher into client.Do (the insertBegin of the heap model)
+	growOf   map[int]bool // per queued request: did append(svc.results, p) reallocate (len == cap before the call)
 	skip     bool     // the tie is not decidable for this run (a panic could not be attributed to a sub-service)
 	stats    map[string]int
 }
@@ -705,7 +708,7 @@ func runScenario(sc *scenario) (res *scenResult) {
 	if sc.scale > 1 {
 		stepTimeout = time.Duration(sc.scale) * c0102Deadline
 	}
-	res = &scenResult{reqs: map[int]*hReq{}, reqSub: map[int]int{}, stats: map[string]int{}}
+	res = &scenResult{reqs: map[int]*hReq{}, reqSub: map[int]int{}, stats: map[string]int{}, growOf: map[int]bool{}}
 	env := &fakeEnv{scripted: true, doCalls: make(chan doCall), connects: make(chan chan error)}
 	ms := newService(sc.Kind, env, int64(sc.MaxQueue), sc.SvcNum, time.Hour)
 	if sc.HoldBefore {
@@ -802,6 +805,7 @@ func runScenario(sc *scenario) (res *scenResult) {
 				}
 			case call := <-env.doCalls:
 				ops = append(ops, fmt.Sprintf("w:%d", i))
+				res.beginPos = append(res.beginPos, len(ops))
 				c := call
 				inDo[i] = &c
 				iterDone[i] = done
@@ -848,6 +852,7 @@ func runScenario(sc *scenario) (res *scenResult) {
 		case call := <-env.doCalls:
 			c := call
 			inDo[i] = &c
+			res.beginPos = append(res.beginPos, len(ops))
 		case <-iterPanic[i]:
 			evs = append(evs, "x")
 			res.events = append(res.events, sevent{Step: curStep, Kind: "crash"})
@@ -893,6 +898,11 @@ func runScenario(sc *scenario) (res *scenResult) {
 		r.step = curStep
 		res.reqs[r.id] = r
 		before := snapshot()
+		full := make([]bool, len(subs)) // svc.results has no room left: the append of this Request reallocates
+		for i, sub := range subs {
+			rv := reflect.ValueOf(sub).Elem().FieldByName("results")
+			full[i] = rv.IsValid() && rv.Len() == rv.Cap()
+		}
 		lo, hi := 0, nSync
 		if op.Mode == "async" {
 			lo, hi = nSync, len(subs)
@@ -951,6 +961,7 @@ func runScenario(sc *scenario) (res *scenResult) {
 				}
 			}
 			res.reqSub[r.id] = chosen
+			res.growOf[r.id] = full[chosen]
 		} else if crashed {
 			// a panic before any visible change: attribute it to the only candidate, or give up the tie
 			if len(cands) != 1 {
